@@ -563,6 +563,14 @@ example : ∃ g, GridSpec.webTiles id 3 (2 : Nat) 256 = .ok g := by
 end web
 
 
+/-- a bounding box in a foreign CRS is rejected (`AssertionError`), never silently reinterpreted or converted
+    through its four corners; with the grid's own CRS the guard is transparent -/
+theorem idx_bounds_crs_guard (fl : Rnd) (tol : Rat) (g : GridSpec) (q : BBox) :
+    g.idxBoundsChecked fl tol false q = .error .assertion ∧ g.tilesChecked fl tol false q = .error .assertion ∧
+    g.idxBoundsChecked fl tol true q = .ok (g.idxBounds fl tol q) ∧
+    g.tilesChecked fl tol true q = .ok (g.tiles fl tol q) :=
+  ⟨rfl, rfl, rfl, rfl⟩
+
 /-! ## the shared `geobox_cache` (state across a history of queries; any rounding function `fl`) -/
 
 section cache
